@@ -1,5 +1,6 @@
 import Enc.Driver.Ascii
 import Enc.Driver.Proto
+import Enc.Driver.Iso
 /-!
 encdriver: reads `op<TAB>arg…` lines on stdin, answers `M<TAB>S<TAB>K` per line
 (model observable, spec observable, comma-separated Known classes), `bad-op` for what it cannot parse.
@@ -10,6 +11,7 @@ open Enc
 def dispatch (op : String) (args : List String) : Option (String × String × String) :=
   if op.startsWith "ascii." then Driver.Ascii.handle op args
   else if op.startsWith "proto." then Driver.Proto.handle op args
+  else if op.startsWith "iso." then Driver.Iso.handle op args
   else none
 
 def step (line : String) : String :=
